@@ -274,6 +274,7 @@ def _is_default(val, f):
 # -- strategies ---------------------------------------------------------------------------------------
 
 FIELD_NAMES = ["a", "b", "c", "d", "e"]
+MIXED_CASE = {"a": "aX", "b": "Bee", "c": "cC", "d": "Dd", "e": "eE"}
 FIELD_TYPES = st.sampled_from([
     {"k": "leaf", "o": "int"}, {"k": "leaf", "o": "int"}, {"k": "leaf", "o": "str"},
     {"k": "con", "o": "int", "c": {"gt": 0}}, {"k": "con", "o": "str", "c": {"max_length": 3}},
@@ -358,6 +359,9 @@ def decl_specs(draw, rich=True, bases=("schema", "schema", "dataclass", "deco"),
     if names is None:
         n = draw(st.integers(1, max_fields))
         names = FIELD_NAMES[:n]
+        if draw(st.integers(0, 3)) == 0:
+            # declared spellings with capitals (what case-insensitive matching lower-cases on one side has to be lower-cased on the other)
+            names = [MIXED_CASE[x] if draw(st.booleans()) else x for x in names]
     fields = []
     for i, nm in enumerate(names):
         t = draw(field_types or FIELD_TYPES)
